@@ -25,7 +25,10 @@ type readResp struct {
 	err  int // 0 none, 1 EOF, 2 other
 }
 
-type scriptReader struct{ script []readResp }
+type scriptReader struct {
+	script []readResp
+	got    []byte // bytes actually delivered
+}
 
 func (s *scriptReader) Read(p []byte) (int, error) {
 	if len(s.script) == 0 {
@@ -34,6 +37,7 @@ func (s *scriptReader) Read(p []byte) (int, error) {
 	r := s.script[0]
 	s.script = s.script[1:]
 	n := copy(p, r.data)
+	s.got = append(s.got, r.data[:n]...)
 	switch r.err {
 	case 1:
 		return n, io.EOF
@@ -186,7 +190,10 @@ func runCase(line string) (impl string, oracle string) {
 			if m < 0 || m > n || before+m > q.cap {
 				bad(i, "count %d out of range (n=%d free=%d)", m, n, q.cap-before)
 			}
-			q.data = append(q.data, deliveredPrefix(parts[2], m)...)
+			if m != len(sr.got) {
+				bad(i, "returned %d but reader delivered %d", m, len(sr.got))
+			}
+			q.data = append(q.data, sr.got...)
 			if err == nil && m != n && n > 0 {
 				bad(i, "nil error but %d of %d read", m, n)
 			}
@@ -225,22 +232,6 @@ func runCase(line string) (impl string, oracle string) {
 		bad(len(f)-2, "final contents %x, queue %x", rest, q.data)
 	}
 	return strings.Join(outs, " ") + " |" + hx.Hex(rest), oracle
-}
-
-// deliveredPrefix returns the first m bytes the scripted reader would hand out
-// given unbounded offers (responses concatenated); valid because the buffer
-// offers each response at most once and a short offer truncates it — so this is
-// only used when every response was fully consumed or the total is cut at m by
-// construction of the generator (responses never exceed the offer: see gen).
-func deliveredPrefix(script string, m int) []byte {
-	var all []byte
-	for _, r := range parseReadScript(script) {
-		all = append(all, r.data...)
-	}
-	if m > len(all) {
-		m = len(all)
-	}
-	return all[:m]
 }
 
 func unhex(s string) []byte {
@@ -301,8 +292,6 @@ func genOp(r *hx.Rand, c int, next *byte) string {
 	case 5:
 		return "rb"
 	case 6:
-		// Scripted reader: single-byte responses so that a truncated offer never
-		// drops bytes silently (the oracle's deliveredPrefix relies on it).
 		n := r.Intn(c + 3)
 		k := r.Intn(n + 2)
 		var rs []string
@@ -311,7 +300,7 @@ func genOp(r *hx.Rand, c int, next *byte) string {
 			if r.Chance(1, 6) {
 				e = 1 + r.Intn(2)
 			}
-			sz := r.Intn(2)
+			sz := r.Intn(c + 3)
 			rs = append(rs, fmt.Sprintf("%s/%d", hx.Hex(fresh(sz)), e))
 		}
 		return fmt.Sprintf("rn:%d:%s", n, strings.Join(rs, ";"))
@@ -360,7 +349,7 @@ func main() {
 		}
 		// Exhaustive: all sequences of length <= L over a small op alphabet, capacities 0..3.
 		alphabet := []string{"w:a1", "w:b1b2", "w:c1c2c3c4", "wb:d1", "r:1", "r:2", "r:5", "rb", "reset",
-			"rn:2:e1/0;e2/0", "rn:3:f1/0;/1", "rn:4:e3/2", "wt:1/0;9/0", "wt:9/0", "wt:0/1", "r:0", "w:-"}
+			"rn:2:e1/0;e2/0", "rn:3:f1/0;/1", "rn:4:e3/2", "rn:1:e4e5e6/0", "rn:2:e7e8e9ea/0;eb/0", "wt:1/0;9/0", "wt:9/0", "wt:0/1", "r:0", "w:-"}
 		L := c.Size(3, 4)
 		var rec func(prefix []string, depth int, capacity int)
 		rec = func(prefix []string, depth int, capacity int) {
